@@ -38,6 +38,8 @@ func init() {
 		rule{name: "P-nilsrc", run: ruleNilSrc},
 		rule{name: "S-reset", run: ruleSReset},
 		rule{name: "S-sub", run: ruleSSubGrid},
+		rule{name: "S-clonelen", run: ruleSCloneLen},
+		rule{name: "G-eff", run: ruleGEffLegacy},
 		rule{name: "P-exec", run: rulePExec},
 		rule{name: "TERM", run: ruleTermExec},
 		rule{name: "S-own", run: ruleSOwn},
